@@ -605,3 +605,27 @@ pub fn bombs() -> Vec<String> {
     }
     out
 }
+
+/// Repetitions of whole components with every bound form, optionally prefixed and followed by an
+/// open tail: the shapes on which exhaustiveness and depth verdicts depend.
+pub fn component_repetition(rng: &mut Rng) -> String {
+    const BODY: &[&str] = &["*/", "*/*/", "a/", "?/", "[ab]*/", "{a,b}/", "<?>/", "a*/", "*a/", "*/a/", "$/", "*/?/"];
+    const TAIL: &[&str] = &["*", "**", "", "a*", "*a", "*/**", "?", "$", "{a,b}", "a", "*.rs", "[!.]*"];
+    const HEAD: &[&str] = &["", "", "", "src/", "a/", "**/", "x", "/", "{a,b}/"];
+    const BNDS: &[&str] = &["", ":", ":0,", ":1,", ":2,", ":0,1", ":0,2", ":0,3", ":1,2", ":1,3", ":2,4", ":2", ":3", ":1", ":0,4"];
+    let mut s = String::new();
+    s.push_str(rng.pick_str(HEAD));
+    s.push('<');
+    s.push_str(rng.pick_str(BODY));
+    s.push_str(rng.pick_str(BNDS));
+    s.push('>');
+    s.push_str(rng.pick_str(TAIL));
+    if rng.chance(1, 5) {
+        s.push('<');
+        s.push_str(rng.pick_str(BODY));
+        s.push_str(rng.pick_str(BNDS));
+        s.push('>');
+        s.push_str(rng.pick_str(TAIL));
+    }
+    s
+}
